@@ -97,7 +97,12 @@ class World:
             def local_function():
                 return None
             return local_function
-        return SCRIPT.format(ctl=self.ctl, ident=ident)
+        src = SCRIPT.format(ctl=self.ctl, ident=ident)
+        if self.cfg.get('script_prints'):
+            # the script also writes to standard output (OnWriteStdout events), before and after it is told how to end
+            src = src.replace("while not os.path.exists(P):", "print('verif: waiting')\nwhile not os.path.exists(P):", 1)
+            src = src.replace("open(P + '.ack', 'w').close()", "open(P + '.ack', 'w').close()\nprint('verif: told', c)", 1)
+        return src
 
 
 def task_name() -> str:
@@ -177,7 +182,7 @@ def make_plugin(w: World, tag: str = 'G'):
         exec(src, ns)
         return hookimpl(ns[hook])
 
-    for h in HOOKS_ASYNC:
+    for h in HOOKS_ASYNC + [x for x in w.cfg.get('extra_hooks', []) if x not in HOOKS_ASYNC]:
         setattr(GatePlugin, h, mk(h))
     return GatePlugin()
 
